@@ -159,11 +159,19 @@ fn build_index(cfg: &Cfg) -> LuaModuleIndex {
 fn run_corr_case(cfg: &Cfg, ops: &[Value]) -> Value {
     let mut idx = build_index(cfg);
     let mut steps = Vec::new();
-    let mut rw: BTreeMap<String, String> = BTreeMap::new();
-    let mut mp: BTreeMap<String, Option<String>> = BTreeMap::new();
-    let mut note_rw = |idx: &LuaModuleIndex, s: &str| {
-        rw.insert(s.to_string(), idx.verif_replace_module_path(s));
-    };
+    // one rewrite table per configuration epoch (the moduleMap changes with the configuration)
+    let mut rws: Vec<BTreeMap<String, String>> = vec![BTreeMap::new()];
+    let mut cfg_steps: Vec<usize> = Vec::new();
+    let mut cur_patterns = cfg.patterns.clone();
+    let mut mp: Vec<(String, String, Option<String>)> = Vec::new();
+    macro_rules! note_rw {
+        ($idx:expr, $s:expr) => {{
+            let v = $idx.verif_replace_module_path($s);
+            if let Some(last) = rws.last_mut() {
+                last.insert($s.to_string(), v);
+            }
+        }};
+    }
     for op in ops {
         let kind = op[0].as_str().unwrap_or("");
         match kind {
@@ -175,11 +183,11 @@ fn run_corr_case(cfg: &Cfg, ops: &[Value]) -> Value {
                 for r in &cfg.roots {
                     if comps.len() >= r.comps.len() && comps[..r.comps.len()] == r.comps[..] {
                         let rel = comps[r.comps.len()..].join("/");
-                        mp.insert(rel.clone(), idx.match_pattern(&rel));
+                        mp.push((cur_patterns.join("\u{1}"), rel.clone(), idx.match_pattern(&rel)));
                     }
                 }
                 if let Some((m, _)) = idx.extract_module_path(&path) {
-                    note_rw(&idx, &m.replace(['\\', '/'], "."));
+                    note_rw!(idx, &m.replace(['\\', '/'], "."));
                 }
                 let ex = idx.extract_module_path(&path).map(|(m, w)| json!([m, w.id]));
                 let ret = idx.add_module_by_path(FileId { id: f }, &path).map(|w| w.id);
@@ -206,19 +214,36 @@ fn run_corr_case(cfg: &Cfg, ops: &[Value]) -> Value {
                 idx.clear();
                 steps.push(json!({"op": op, "dump": idx.verif_dump()}));
             }
+            "config" => {
+                // a configuration change: moduleMap, strict require path and the module patterns are re-installed
+                let nc = cfg_from_json(&op[1]);
+                let mut rc = Emmyrc::default();
+                rc.strict.require_path = !nc.fuzzy;
+                rc.workspace.module_map = nc.map.iter().map(|(p, r)| EmmyrcWorkspaceModuleMap { pattern: p.clone(), replace: r.clone() }).collect();
+                idx.update_config(Arc::new(rc));
+                idx.set_module_extract_patterns(nc.patterns.clone());
+                cur_patterns = nc.patterns.clone();
+                rws.push(BTreeMap::new());
+                cfg_steps.push(steps.len());
+                steps.push(json!({"op": op, "dump": idx.verif_dump()}));
+            }
             "find" => {
                 let q = op[1].as_str().unwrap_or("");
-                note_rw(&idx, &q.replace(['\\', '/'], "."));
+                note_rw!(idx, &q.replace(['\\', '/'], "."));
                 let ret = idx.find_module(q).map(|i| i.file_id.id);
                 steps.push(json!({"op": op, "ret": ret}));
             }
             _ => {}
         }
     }
+    let table = |m: &BTreeMap<String, String>| -> Value { Value::Array(m.iter().map(|(a, b)| json!([a, b])).collect()) };
+    for (k, si) in cfg_steps.iter().enumerate() {
+        steps[*si]["rw"] = table(&rws[k + 1]);
+    }
     json!({
         "cfg": cfg_json(cfg),
-        "rw": rw.into_iter().map(|(a, b)| json!([a, b])).collect::<Vec<_>>(),
-        "mp": mp.into_iter().map(|(a, b)| json!([a, b])).collect::<Vec<_>>(),
+        "rw": table(&rws[0]),
+        "mp": mp.into_iter().map(|(p, a, b)| json!([p.split('\u{1}').collect::<Vec<_>>(), a, b])).collect::<Vec<_>>(),
         "sizes": idx.verif_sizes().into_iter().map(|(k, v)| json!([k, v])).collect::<Vec<_>>(),
         "steps": steps,
     })
@@ -319,8 +344,20 @@ fn gen_ops(rng: &mut Rng, cfg: &Cfg, nops: usize) -> Vec<Value> {
                 scratch.remove(FileId { id: f });
                 ops.push(json!(["remove", f]));
             }
-            14 => ops.push(json!(["hide", f])),
-            15 => {
+            14 | 15 => {
+                if rng.chance(1, 3) {
+                    ops.push(json!(["hide", f]));
+                } else {
+                    // switch the module map / strictness / patterns (roots stay)
+                    let mut nc = gen_cfg(rng);
+                    nc.roots = cfg.roots.clone();
+                    if rng.chance(1, 2) {
+                        nc.map = Vec::new();
+                    }
+                    ops.push(json!(["config", cfg_json(&nc)]));
+                }
+            }
+            16 => {
                 if rng.chance(1, 3) {
                     scratch.clear();
                     ops.push(json!(["clear"]));
@@ -848,6 +885,35 @@ fn fixed_corr_cases() -> Vec<(Cfg, Vec<Value>)> {
             json!(["find", "a.b"]),
             json!(["remove", 1]),
             json!(["find", "lib.a.b"]),
+        ],
+    ));
+    // the module map is configured, then removed by a configuration change: the rules must be gone
+    let mut mapped = base.clone();
+    mapped.map = vec![("^lib\\.(.*)$".into(), "$1".into())];
+    let mut unmapped = base.clone();
+    unmapped.fuzzy = false;
+    let mut remapped = base.clone();
+    remapped.map = vec![("^a\\.".into(), "z.".into())];
+    out.push((
+        mapped,
+        vec![
+            json!(["addpath", 1, p("w/a/b.lua")]),
+            json!(["find", "lib.a.b"]),
+            json!(["config", cfg_json(&unmapped)]),
+            json!(["find", "lib.a.b"]),
+            json!(["addpath", 2, p("w/lib/c.lua")]),
+            json!(["find", "c"]),
+            json!(["find", "lib.c"]),
+            json!(["config", cfg_json(&remapped)]),
+            json!(["find", "a.b"]),
+            json!(["addpath", 3, p("w/a/d.lua")]),
+            json!(["find", "z.d"]),
+            json!(["config", cfg_json(&base)]),
+            json!(["find", "a.b"]),
+            json!(["find", "d"]),
+            json!(["clear"]),
+            json!(["addpath", 1, p("w/a/b.lua")]),
+            json!(["find", "z.b"]),
         ],
     ));
     out
